@@ -109,6 +109,36 @@ def make_docs(rng, n, base):
     return docs
 
 
+HANDLER_COLLISIONS = """import qmluic.QtWidgets
+QWidget {
+    id: root
+    QComboBox { id: name; editable: true; onEditTextChanged: console.log("combo") }
+    QLineEdit { id: nameEdit; onTextChanged: console.log("edit"); text: name.currentText }
+    QLineEdit { id: search; onReturnPressed: console.log("return"); enabled: searchReturn.checked }
+    QPushButton { id: searchReturn; checkable: true; onPressed: console.log("pressed") }
+    QLabel { id: a; text: nameEdit.text; onWindowTitleChanged: {} }
+    QLabel { id: aWindow; onTitleChanged_: {} }
+}
+""".replace("    QLabel { id: aWindow; onTitleChanged_: {} }\n", "")
+
+
+def handler_name_collisions(v):
+    """Every setup/update/eval/on function of the header is one member: two handlers must never share a name."""
+    out = common.translate([{"id": "hc", "source": HANDLER_COLLISIONS, "modes": ["generate"], "want": ["ui", "header"]}], tag="c10h")
+    rs = out.results.get("hc")
+    if not rs or rs[0].get("panic") or not doccheck.accepted(rs[0]):
+        v.violation("collision-document-rejected", "document whose handler names collide after capitalisation is rejected: %r"
+                    % ([x["message"] for x in rs[0].get("diagnostics", [])][:3] if rs else None), {"qml": HANDLER_COLLISIONS})
+        return 0
+    h = rs[0]["header"]
+    names = re.findall(r"^    (?:[\w:<>\*& ]+?)\b((?:setup|update|eval|on)\w+)\([^)]*\)\s*$", h, re.M)
+    dups = sorted({n for n in names if names.count(n) > 1})
+    if dups:
+        v.violation("handler-name-ambiguous", "member functions %r are defined more than once: this->%s() does not denote one handler" % (dups, dups[0]),
+                    {"qml": HANDLER_COLLISIONS, "header": h})
+    return len(names)
+
+
 def run(tier, seed, replay=None):
     v = common.Verdict("C10", tier, seed)
     rng = common.rng_for(seed, "C10", tier)
@@ -123,6 +153,7 @@ def run(tier, seed, replay=None):
     jobs = [{"id": "d%d" % i, "source": "", "path": os.path.join(d.dir, "Main.qml"), "modes": ["generate"],
              "want": ["ui", "header"]} for i, d in enumerate(docs)]
     out = common.translate(jobs, tag="c10")
+    n_member_functions = handler_name_collisions(v) if not replay else 0
     cat = catalog.load()
     n_acc = n_rej = n_names = n_refs = n_gen = n_dup_rejected = n_badref_rejected = 0
     distinct = set()
@@ -257,6 +288,7 @@ def run(tier, seed, replay=None):
              "(label1, Label1, widget2, ...); distinct = distinct tree shape having anonymous objects whose prefix collides "
              "with an id or with another anonymous object",
         samples=samples, accepted=n_acc, rejected=n_rej, rejected_reasons=rejected_msgs, names_checked=n_names,
+        member_functions_of_collision_document=n_member_functions,
         generated_names_checked=n_gen, references_checked=n_refs, duplicate_id_documents_rejected=n_dup_rejected,
         incompatible_reference_documents_rejected=n_badref_rejected, floor=50,
     )
